@@ -28,10 +28,18 @@ CLAIMS = {
              "and lenCheck holds - longest path; result order included) is deterministic (big_functional) and is EXACTLY what every "
              "uncurtailed run computes, from any context and any cache of exact results (c01_bigstep, c01_bigstep_exact; every run "
              "of a Memoize-free grammar: c01_bigstep_memofree), with the documented rules as corollaries (c01_choice_first_match, "
-             "c01_many_longest, c01_seqtry_rule, c01_seqfirstorall_rule, c01_sepby_odd). PARTIAL: for left-recursive grammars that "
-             "USE the non-monotone operators (every run curtails; no least-fixpoint meaning in general - the property's "
-             "'stratified' proviso) and for Name/Single over Optional (known finding D9) completeness is decided per case by the "
-             "harness's independent least-fixpoint derivation table and the model/implementation differential - bounded exploration.",
+             "c01_many_longest, c01_seqtry_rule, c01_seqfirstorall_rule, c01_sepby_odd). STRATIFIED grammars - the property's own "
+             "proviso - (Props/C01S.lean): under the decidable certificate stratOK (a left-recursive monotone upper stratum over a "
+             "left-recursion-free lower stratum that may use Choice / Many / SepBy / SeqTry / SeqFirstOrAll / Name / Single / "
+             "SuppressError freely) the meaning DerivesS (Derives with the low leaves read by Big) is returned EXACTLY: "
+             "c01_sound_strat, c01_complete_strat_ends (every end position), c01_complete_strat_trees (every tree when no "
+             "upper (index, start, end) nests in itself), the iffs c01_strat_ends_exact / c01_strat_trees_exact, and the Sentence "
+             "forms; ingredients: the lower stratum never curtails and is exact from any upper context and any cache "
+             "(c01_strat_low_exact), the joint cache-reuse invariant (c01_strat_reuse_complete), the cut on sized derivations with "
+             "low leaves as leaves (c01_strat_curtailed_covers). PARTIAL: a non-monotone operator ABOVE a left-recursive rule "
+             "(e.g. Many(E ';')) or a lower stratum that refers back to the upper one has no least-fixpoint meaning in general, and "
+             "Name/Single over Optional is known finding D9; there completeness is decided per case by the harness's independent "
+             "least-fixpoint derivation table and the model/implementation differential - bounded exploration.",
         note="Derives is the monotone reading (Choice as Any, repetitions may stop wherever lenCheck allows): soundness is claimed against "
              "it. TermGood (terminals return well-positioned leaves) is proved of the built-in terminals by C08 (c08_termGood). A "
              "sequence stops enumerating after an alternative whose last node has token EOF: completeness is stated below the Sentence wrapper.",
@@ -105,9 +113,15 @@ CLAIMS = {
              "c05_returned_exact: exactly one tree); the parser TERMINATES on every input of this grammar, trims included "
              "(c05_terminates). Also: every derivation is sentence[expression tree, EOF], evaluation of an expression tree is exactly "
              "the reference evaluation of the expression it denotes, never a panic (c05_tree_shape, c05_value, c05_no_panic). "
-             "Ill-formed inputs: Parse/Evaluate answer an error or a value of a tree that spans the input (c05_reject); that no "
-             "ill-formed text is accepted is decided per case by the differential run against an independent recursive-descent "
-             "reference evaluator on generated expressions and their mutations.",
+             "THE CONVERSE (Props/C05A.lean): the parser accepts NOTHING ELSE - a returned node implies the file's data IS the "
+             "rendering of a well-formed expression with admissible whitespace and the node is its tree "
+             "(c05_accepts_only_expressions), hence c05_accept_iff (accepted <-> rendering), c05_rejects_ill_formed (an error with "
+             "Parse's message text) and the bundled DECISION theorem c05_decides: for every input there is a fuel beyond which Parse "
+             "answers; it answers a node iff the input is a rendering, then Evaluate gives the reference value, otherwise the error. "
+             "The accepted class is exactly WF + Admissible (literals: Integer's language within int64; whitespace: space, tab, LF, "
+             "FF; CRLF is normalised by text.NewFile before parsing, a lone CR is rejected - replayed on the Go library). Concrete "
+             "ill-formed texts ('1 +', '(1', '1 2', ')', '', '1 + * 2') are rejected as corollaries. The differential run against an "
+             "independent recursive-descent reference evaluator on generated expressions and their mutations ties all of this to the code.",
         note="Derives (the monotone reading with rtrimKeep) is deliberately not unique on this grammar (c05_derives_not_unique); uniqueness "
              "is proved for the exact trees the parser returns. The model's evaluate on this grammar is not kernel-reducible "
              "(well-founded cpUnion): the concrete end-to-end examples are proved THROUGH the theorems, the #guard lines are labelled tests.",
